@@ -314,15 +314,20 @@ func (sortedSet *SortedSet) zRange(min float64, max float64, offset int64, limit
 		return make([]*Item, 0)
 	}
 	slice := make([]*Item, 0)
-	sortedSet.forEach(min, max, offset, limit, desc, func(element *Item) bool {
+	// offset and limit count the members inside the (possibly open) interval only
+	sortedSet.forEach(min, max, 0, -1, desc, func(element *Item) bool {
 		if mode&MinOpen == MinOpen && element.Score == min {
 			return true
 		}
 		if mode&MaxOpen == MaxOpen && element.Score == max {
 			return true
 		}
+		if offset > 0 {
+			offset--
+			return true
+		}
 		slice = append(slice, element)
-		return true
+		return limit < 0 || int64(len(slice)) < limit
 	})
 	return slice
 }
